@@ -3,6 +3,7 @@ pub mod c01;
 pub mod c02;
 pub mod c03;
 pub mod c04;
+pub mod c05;
 pub mod c06;
 pub mod c07;
 pub mod c08;
@@ -28,6 +29,7 @@ pub fn run(id: &str, tier: Tier) -> Option<Report> {
         "C02" => c02::run(tier),
         "C03" => c03::run(tier),
         "C04" => c04::run(tier),
+        "C05" => c05::run(tier),
         "C06" => c06::run(tier),
         "C07" => c07::run(tier),
         "C08" => c08::run(tier),
@@ -61,6 +63,7 @@ pub fn replay(id: &str, path: &str) -> i32 {
     match (id, replay["kind"].as_str()) {
         ("C01" | "C06" | "C16", Some("pipeline")) => behave::replay_pipeline(replay, behave::env_none(), behave::env_none()),
         ("C15", Some("resolve" | "convert")) => c15::replay(replay),
+        ("C05", Some("bundle")) => c05::replay(replay),
         _ => {
             println!("no dedicated replay for this record; the summary above holds the complete case");
             2
